@@ -67,7 +67,7 @@ Definition cev_eqb (a b : cev) : bool :=
 Definition counter_eqb (a b : list (str * N)) : bool :=
   list_eqb (fun x y => str_eqb (fst x) (fst y) && N.eqb (snd x) (snd y)) (sort_items a) (sort_items b).
 Definition rst_eqb (a b : rst) : bool :=
-  Bool.eqb (live a) (live b) && Bool.eqb (force a) (force b) && counter_eqb (counter a) (counter b) &&
+  Bool.eqb (active a) (active b) && Bool.eqb (enabled a) (enabled b) && Bool.eqb (force a) (force b) && counter_eqb (counter a) (counter b) &&
   Bool.eqb (icpt a) (icpt b).
 
 Definition eq_outcome (m i : obs) := outcome_eqb (ob_outcome m) (ob_outcome i).
